@@ -85,7 +85,7 @@ Inductive pkct :=
 | CRsa (v : Z)                    (* RSACipherText.me_mod_n *)
 | CEcdh (xy : bytes) (c : bytes)  (* ECDHCipherText: point octets (format octet first), wrapped key *)
 | CElg (a b : Z)                  (* ElGCipherText (parsed, never decrypted) *)
-| CNone.                          (* pkalg without a ciphertext class *)
+| COpaque (x : bytes).            (* pkalg without a ciphertext class (listed or not): _opaque_ct, the rest of the packet as received *)
 
 Inductive esk :=
 | PK (id : bytes) (pkalg : Z) (ct : pkct)           (* PKESessionKeyV3 *)
@@ -192,6 +192,10 @@ Definition s2k_bytes (sp : s2kspec) : bytes :=
 (* derive_key: `specifier >= Salted` uses the salt, `== Iterated` the count; the reserved value 2 therefore acts as Salted *)
 Definition s2k_kind (t : Z) : Z := if t =? 0 then 0 else if t =? 3 then 3 else 1.
 
+(* decrypt_sk, RSA branch: ct = me_mod_n.to_mpibytes()[2:]; ct = b'\x00' * (width - len(ct)) + ct *)
+Definition rsa_ct_padded (width : Z) (v : Z) : bytes :=
+  let ct := mpi_body v in zeros (width - Z.of_nat (length ct)) ++ ct.
+
 Section Prims.
   Variable sha1 : bytes -> bytes.
   (* CFB with an all-zero IV, whole-block feedback: algorithm id, key, data.  None = the cipher could not be set up *)
@@ -241,11 +245,14 @@ Section Prims.
     end.
 
   (* ---------- RSA ---------- *)
-  (* decrypt_sk, RSA branch: strip the bit count, left-pad with zero octets to the modulus size *)
+  (* decrypt_sk, RSA branch: strip the bit count, left-pad with zero octets to the length of the modulus in octets,
+     (key_size + 7) // 8 -- a modulus need not be a multiple of 8 bits long *)
   Definition rsa_decrypt_m (h : bytes) (v : Z) : res bytes :=
-    let ct := mpi_body v in
-    let ct := zeros (rsa_bits h / 8 - Z.of_nat (length ct)) ++ ct in
-    of_opt EPrim (rsa_dec h ct).
+    of_opt EPrim (rsa_dec h (rsa_ct_padded ((rsa_bits h + 7) / 8) v)).
+  (* BEFORE repair 9a4ce40: key_size // 8, one octet short of the modulus when its bit length is no multiple of 8, so that a
+     ciphertext integer with a leading zero octet reached the primitive too short; kept for the regression theorem only *)
+  Definition rsa_decrypt_m_old (h : bytes) (v : Z) : res bytes :=
+    of_opt EPrim (rsa_dec h (rsa_ct_padded (rsa_bits h / 8) v)).
   Definition rsa_encrypt_ct (h seed m : bytes) : res pkct :=
     match rsa_enc h seed m with Some c => Ok (CRsa (bytes_to_int c)) | None => Raise EPrim end.
 
@@ -480,8 +487,10 @@ Definition pkct_bytes (ct : pkct) : res bytes :=
     if 256 <=? Z.of_nat (length c) then Raise EValue
     else Ok (to_mpibytes (bytes_to_int xy) ++ [Z.of_nat (length c)] ++ c)
   | CElg a b => Ok (to_mpibytes a ++ to_mpibytes b)
-  | CNone => Ok []
+  | COpaque x => Ok x
   end.
+(* (PKESessionKeyV3.__bytearray__ builds this body first and sets header.length = 1 + len(_body) before the header is
+   written: the header of a re-serialised packet counts the octets written, as `packet` below does) *)
 Definition esk_body (e : esk) : res bytes :=
   match e with
   | PK id a ct => bind (pkct_bytes ct) (fun b => Ok ([3] ++ id ++ [a] ++ b))
@@ -510,14 +519,18 @@ Definition msg_emit (m : emsg) : res bytes :=
   end).
 
 (* ---------- packet parsers: they eat from the shared buffer like the code; result = (object, rest) ---------- *)
-(* PKESessionKeyV3.parse; b = buffer after header and version octet *)
+(* the algorithm ids pkalg_int has a ciphertext class for (RSACipherText, ElGCipherText, ECDHCipherText) *)
+Definition pk_class (a : Z) : bool := (a =? 1) || (a =? 2) || (a =? 16) || (a =? 20) || (a =? 18).
+(* PKESessionKeyV3.parse; b = buffer after header and version octet.  The pkalg setter keeps an id that is no
+   PubKeyAlgorithm member as a plain int (no refusal); every id without a ciphertext class, listed or not, takes
+     pend = self.header.length - 10; self._opaque_ct = packet[:pend]; del packet[:pend]
+   (version octet, key id and algorithm octet are the 10) *)
 Definition pkesk_parse (h : pheader) (b : bytes) : res (esk * bytes) :=
   let id := firstn 8 b in
   match skipn 8 b with
   | [] => Raise EPGP
   | alg :: b2 =>
-    if negb (pk_valid alg) then Raise EPGP
-    else if (alg =? 1) || (alg =? 2) then
+    if (alg =? 1) || (alg =? 2) then
       let '(v, r) := mpi_parse b2 in Ok (PK id alg (CRsa v), r)
     else if (alg =? 16) || (alg =? 20) then
       let '(v1, r1) := mpi_parse b2 in
@@ -532,7 +545,20 @@ Definition pkesk_parse (h : pheader) (b : bytes) : res (esk * bytes) :=
         | clen :: r2 => Ok (PK id 18 (CEcdh xy (firstn (Z.to_nat clen) r2)), skipn (Z.to_nat clen) r2)
         end
       end
-    else Ok (PK id alg CNone, py_drop (h_len h - 18) b2)
+    else Ok (PK id alg (COpaque (py_take (h_len h - 10) b2)), py_drop (h_len h - 10) b2)
+  end.
+(* the same BEFORE repairs 3c26ab3 / f2ab7da, kept for the regression theorems only: an id outside the enum made the setter
+   raise (PGPError out of the packet dispatcher: the whole message unreadable); for a listed id without class the code did
+   `del packet[:(self.header.length - 18)]` and kept nothing, and __bytearray__ wrote b'\x00' * (header.length - 10) in its
+   place -- the object is given here by the octets it would write *)
+Definition pkesk_parse_old (h : pheader) (b : bytes) : res (esk * bytes) :=
+  let id := firstn 8 b in
+  match skipn 8 b with
+  | [] => Raise EPGP
+  | alg :: b2 =>
+    if negb (pk_valid alg) then Raise EPGP
+    else if pk_class alg then pkesk_parse h b
+    else Ok (PK id alg (COpaque (zeros (h_len h - 10))), py_drop (h_len h - 18) b2)
   end.
 
 (* SKESessionKeyV4.parse *)
